@@ -3,6 +3,6 @@ CONSTANTS SmallIds = {1, 2} Widths = {1} MaxTok = 3
   Texts <- CTexts HRs <- CHRsQ
 CONSTRAINT Bound
 VIEW View
-INVARIANTS TypeOK Refines OnceOnly GoneNotified
-PROPERTIES DeliveredRight OneHandler FiniAll ReserveUnique DefaultFollows
+INVARIANTS TypeOK Refines OnceOnly GoneNotified HeldApart
+PROPERTIES DeliveredRight OneHandler FiniAll SnapshotSilent ReserveUnique DefaultFollows
 CHECK_DEADLOCK FALSE
